@@ -6,6 +6,7 @@
 use lockable::{AsyncLimit, LockPool, LockableHashMap, LockableLruCache, SyncLimit};
 use std::sync::atomic::{AtomicBool, AtomicU64, Ordering};
 use std::sync::{mpsc, Arc};
+use std::future::Future;
 use std::time::Duration;
 
 fn fail(scenario: &str, what: String) -> ! {
@@ -224,22 +225,29 @@ fn pool_blocking(iters: u64) -> Result<String, String> {
     Ok(format!("{} lock/unlock pairs", 8 * iters))
 }
 
-/// One release racing one `try_lock` per round (the window between a failed try and its clean-up), with an
-/// exact check of the pool's reporting after every round. The two threads meet at spin barriers; the offset
-/// between release and try is steered so that about half of the tries see the key locked.
-fn pool_try_race(rounds: u64) -> Result<String, String> {
-    let pool: Arc<LockPool<u64>> = Arc::new(LockPool::new());
+/// One release racing one probe per round (e.g. the window between a failed try and its clean-up), with an exact
+/// check after every round. `hold(r)` locks the key of round r on the holder thread and returns the guard;
+/// `probe(r)` runs on the calling thread and says whether it found the key locked; `check(r)` runs when both
+/// have returned and the holder waits, i.e. when nothing is locked and nothing is in flight. The two threads
+/// meet at spin barriers; the offset between release and probe is steered so that about half of the probes see
+/// the key locked.
+fn race_rounds<G: 'static>(
+    rounds: u64,
+    hold: impl Fn(u64) -> G + Send + 'static,
+    probe: impl Fn(u64) -> bool,
+    check: impl Fn(u64) -> Result<(), String>,
+) -> Result<String, String> {
     // a_phase = 2r+1: the holder has locked the key of round r; 2r+2: it has released it
     let a_phase = Arc::new(AtomicU64::new(0));
     // b_phase = r+1: the prober has finished round r (its check included)
     let b_phase = Arc::new(AtomicU64::new(0));
     let stop = Arc::new(AtomicBool::new(false));
     let holder = {
-        let (pool, a_phase, b_phase, stop) = (pool.clone(), a_phase.clone(), b_phase.clone(), stop.clone());
+        let (a_phase, b_phase, stop) = (a_phase.clone(), b_phase.clone(), stop.clone());
         std::thread::spawn(move || {
             let mut r = 0u64;
             while !stop.load(Ordering::SeqCst) {
-                let g = pool.blocking_lock(r % KEYS);
+                let g = hold(r);
                 a_phase.store(2 * r + 1, Ordering::SeqCst);
                 for _ in 0..30 {
                     std::hint::spin_loop();
@@ -274,29 +282,20 @@ fn pool_try_race(rounds: u64) -> Result<String, String> {
         for _ in 0..delay {
             std::hint::spin_loop();
         }
-        match pool.try_lock(r % KEYS) {
-            Some(g) => {
-                saw_free += 1;
-                drop(g);
-                delay = delay.saturating_sub(1);
-            }
-            None => {
-                saw_locked += 1;
-                delay = (delay + 1).min(2000);
-            }
+        if probe(r) {
+            saw_locked += 1;
+            delay = (delay + 1).min(2000);
+        } else {
+            saw_free += 1;
+            delay = delay.saturating_sub(1);
         }
         let mut spins = 0u32;
         while a_phase.load(Ordering::SeqCst) < 2 * r + 2 {
             spins += 1;
             if spins % 256 == 0 { std::thread::yield_now() } else { std::hint::spin_loop() }
         }
-        // both calls of this round have returned and the holder waits for us: nothing is locked, nothing is in flight
-        let (n, keys) = (pool.num_locked(), pool.locked_keys());
-        if n != 0 || !keys.is_empty() {
-            result = Err(format!(
-                "round {}: num_locked() = {}, locked_keys() = {:?} although no guard and no pending call exists (a failed try_lock raced with the release of key {})",
-                r, n, keys, r % KEYS
-            ));
+        if let Err(e) = check(r) {
+            result = Err(format!("round {}: {}", r, e));
             break;
         }
         b_phase.store(r + 1, Ordering::SeqCst);
@@ -305,7 +304,95 @@ fn pool_try_race(rounds: u64) -> Result<String, String> {
     b_phase.store(u64::MAX, Ordering::SeqCst);
     holder.join().map_err(|_| "holder panicked".to_string())?;
     result?;
-    Ok(format!("{} rounds, try saw the key locked {} times and free {} times", done, saw_locked, saw_free))
+    Ok(format!("{} rounds, the probe saw the key locked {} times and free {} times", done, saw_locked, saw_free))
+}
+
+/// `LockPool`: a failed `try_lock` racing with the release.
+fn pool_try_race(rounds: u64) -> Result<String, String> {
+    let pool: Arc<LockPool<u64>> = Arc::new(LockPool::new());
+    let (p1, p2, p3) = (pool.clone(), pool.clone(), pool.clone());
+    race_rounds(
+        rounds,
+        move |r| {
+            // the guard borrows the pool: keep the Arc alive next to it
+            let p: &'static LockPool<u64> = unsafe { &*Arc::as_ptr(&p1) };
+            (p.blocking_lock(r % KEYS), p1.clone())
+        },
+        move |r| p2.try_lock(r % KEYS).is_none(),
+        move |r| {
+            let (n, keys) = (p3.num_locked(), p3.locked_keys());
+            if n != 0 || !keys.is_empty() {
+                return Err(format!(
+                    "num_locked() = {}, locked_keys() = {:?} although no guard and no pending call exists (a try_lock raced with the release of key {})",
+                    n, keys, r % KEYS
+                ));
+            }
+            Ok(())
+        },
+    )
+}
+
+/// Maps: `try_lock_owned` / `try_lock_async` on a key without a value racing with its release, and the
+/// cancellation of a pending `async_lock_owned` racing with the release.
+fn map_races(rounds: u64) -> Result<String, String> {
+    use futures::FutureExt;
+    let mut infos = vec![];
+    // 1. LRU cache, sync try
+    {
+        let c: Arc<LockableLruCache<u64, u64>> = Arc::new(LockableLruCache::new());
+        let (c1, c2, c3) = (c.clone(), c.clone(), c.clone());
+        infos.push(race_rounds(
+            rounds,
+            move |r| c1.blocking_lock_owned(r % KEYS, SyncLimit::no_limit()).unwrap(),
+            move |r| c2.try_lock_owned(r % KEYS, SyncLimit::no_limit()).unwrap().is_none(),
+            move |r| {
+                let n = c3.num_entries_or_locked();
+                if n != 0 { Err(format!("cache: num_entries_or_locked() = {} (keys {:?}) with nothing stored, locked or pending after a try_lock_owned raced with the release of key {}", n, c3.keys_with_entries_or_locked(), r % KEYS)) } else { Ok(()) }
+            },
+        )?);
+    }
+    // 2. hash map, async try (never pends without a limit)
+    {
+        let m: Arc<LockableHashMap<u64, u64>> = Arc::new(LockableHashMap::new());
+        let (m1, m2, m3) = (m.clone(), m.clone(), m.clone());
+        infos.push(race_rounds(
+            rounds,
+            move |r| m1.blocking_lock_owned(r % KEYS, SyncLimit::no_limit()).unwrap(),
+            move |r| match m2.try_lock_owned_async(r % KEYS, AsyncLimit::no_limit()).now_or_never() {
+                Some(Ok(g)) => g.is_none(),
+                _ => true,
+            },
+            move |r| {
+                let n = m3.num_entries_or_locked();
+                if n != 0 { Err(format!("map: num_entries_or_locked() = {} with nothing stored, locked or pending after a try_lock_owned_async raced with the release of key {}", n, r % KEYS)) } else { Ok(()) }
+            },
+        )?);
+    }
+    // 3. hash map, a pending async_lock_owned is polled once and dropped while the holder releases
+    {
+        let m: Arc<LockableHashMap<u64, u64>> = Arc::new(LockableHashMap::new());
+        let (m1, m2, m3) = (m.clone(), m.clone(), m.clone());
+        infos.push(race_rounds(
+            rounds / 2,
+            move |r| m1.blocking_lock_owned(r % KEYS, SyncLimit::no_limit()).unwrap(),
+            move |r| {
+                let mut fut = Box::pin(m2.async_lock_owned(r % KEYS, AsyncLimit::no_limit()));
+                let waker = futures::task::noop_waker();
+                let mut cx = std::task::Context::from_waker(&waker);
+                let pending = fut.as_mut().poll(&mut cx).is_pending();
+                for _ in 0..(r % 40) {
+                    std::hint::spin_loop();
+                }
+                drop(fut);
+                pending
+            },
+            move |r| {
+                let n = m3.num_entries_or_locked();
+                if n != 0 { Err(format!("map: num_entries_or_locked() = {} with nothing stored, locked or pending after the cancellation of an async_lock_owned raced with the release of key {}", n, r % KEYS)) } else { Ok(()) }
+            },
+        )?);
+    }
+    Ok(infos.join("; "))
 }
 
 fn wakeup() -> Result<String, String> {
@@ -340,6 +427,7 @@ fn main() {
     with_watchdog("lru-mixed", 60, move || lru_mixed(iters));
     with_watchdog("pool-blocking", 60, move || pool_blocking(iters));
     with_watchdog("pool-try-race", 120, move || pool_try_race(iters * 250));
+    with_watchdog("map-races", 180, move || map_races(iters * 100));
     with_watchdog("wakeup", 120, wakeup);
     println!("SMOKE OK");
 }
